@@ -387,7 +387,8 @@ static void judge(PDU& root, const Bytes& w, const std::string& kase, const Plan
             bool he = L.t == PDU::ICMP ? static_cast<const ICMP&>(*L.p).has_extensions() : static_cast<const ICMPv6&>(*L.p).has_extensions();
             unsigned lf = L.t == PDU::ICMP ? static_cast<const ICMP&>(*L.p).length() : static_cast<const ICMPv6&>(*L.p).length();
             size_t unit = L.t == PDU::ICMP ? 4 : 8;
-            if (D.rfc4884 && (he || lf) && ch && ch->sz + unit > 255 * unit) { unrepresentable = true; R.count("unrepresentable_layers"); }
+            (void)lf;
+            if (D.rfc4884 && he && ch && ch->sz + unit > 255 * unit) { unrepresentable = true; R.count("unrepresentable_layers"); }
         }
         if (L.t == PDU::DOT3 && D.proto == ref::P_ETH) {
             // Dot3 whose payload is >= 1536 bytes: the length field reads as an EtherType; 802.3 cannot express it
@@ -432,7 +433,19 @@ static void judge(PDU& root, const Bytes& w, const std::string& kase, const Plan
                 for (auto& r : c6.multicast_address_records()) if (r.aux_data.size() % 4 != 0 || r.aux_data.size() > 1020) nd_judged = false;
                 if (nd_judged && (D.nd_options || D.mld_records >= 0)) R.count("icmpv6_option_lists_checked");
             }
+            // RFC 4884 length octet in a message built WITHOUT extension structure: it must cover exactly the rest of the message
+            bool lone_length = false;
+            if ((L.t == PDU::ICMP || L.t == PDU::ICMPv6) && D.rfc4884 && ext_allowed && D.rfc4884_len != 0 &&
+                !(L.t == PDU::ICMP ? static_cast<const ICMP&>(*L.p).has_extensions() : static_cast<const ICMPv6&>(*L.p).has_extensions())) {
+                lone_length = true;
+                size_t body = L.rend - L.off - 8;
+                R.count("lengths_checked");
+                if (D.rfc4884_len != body)
+                    V("len:" + clsname(*L.p) + ".rfc4884-length", "length octet announces " + std::to_string(D.rfc4884_len) + " bytes of original datagram; the message carries " + std::to_string(body) +
+                      " bytes after its header and was built without extension structure");
+            }
             for (auto& is : D.issues) {
+                if (lone_length && (is.sig.compare(0, 8, "icmp-ext") == 0 || is.sig.compare(0, 12, "icmp:rfc4884") == 0 || is.sig == "cksum:icmp-extension-structure")) continue;
                 if (!nd_judged && (is.sig.compare(0, 10, "icmpv6:nd-") == 0 || is.sig.compare(0, 12, "icmpv6:mld2-") == 0)) continue;
                 if (derailed && is.sig.compare(0, 4, "ip6:") == 0) continue;      // consequences of the extension header length reported above
                 if (!ext_allowed && (is.sig.compare(0, 8, "icmp-ext") == 0 || is.sig.compare(0, 12, "icmp:rfc4884") == 0 || is.sig == "cksum:icmp-extension-structure")) continue;
@@ -473,7 +486,7 @@ static void judge(PDU& root, const Bytes& w, const std::string& kase, const Plan
                     if (!D.ext_present) V("icmp-ext:not-found-by-dissector", "the object carries " + std::to_string(nobj) + " extension objects; no valid extension structure where RFC 4884 puts it (length octet " + std::to_string(D.rfc4884_len) + " bytes)");
                     else if (D.ext_ok && (size_t)D.ext_objects != nobj) V("icmp-ext:object-count", "dissected " + std::to_string(D.ext_objects) + " objects, built " + std::to_string(nobj));
                 }
-                if (D.rfc4884 && ext_allowed && D.issues.empty()) {
+                if (D.rfc4884 && ext_allowed && D.issues.empty() && !lone_length) {
                     size_t inner_end = L.off + L.hs + inner;
                     if (D.orig_end >= inner_end && D.orig_end <= n && !ref::all_zero(b, inner_end, D.orig_end)) V("icmp:rfc4884-padding-not-zero", "non-zero byte in the zero fill of the original datagram field");
                     if (D.rfc4884_len) {
